@@ -165,7 +165,7 @@ pub fn decode(bytes: &[u8]) -> Case {
     }
     for it in sentence.iter_mut() {
         if std::str::from_utf8(it).is_err() {
-            *it = String::from_utf8_lossy(it).replace('\u{fffd}', "").into_bytes();
+            *it = crate::un::drop_invalid_utf8(it);
         }
     }
     let k = u.below(sentence.len() + 1);
